@@ -160,10 +160,40 @@ Proof.
   destruct (memb o (inflight st)); auto.
   destruct (get st o) as [ob|] eqn:G.
   - destruct (agree_get _ _ _ _ A G) as (ob' & G' & K & At). rewrite G', K, At.
-    destruct (sel_obj s (okind ob)); auto. f_equal. apply walk_list_ext.
+    destruct (sel_obj s (okind ob)); auto. f_equal. f_equal. apply walk_list_ext.
     intros [k v] Hin. simpl. destruct v as [p|c|c]; try (destruct n; reflexivity).
     apply IH. now apply (agree_child st st' o ob k c).
   - now rewrite (agree_none _ _ _ A G).
+Qed.
+
+(* with the Model selector every walk result is an object reachable from the receiver *)
+Lemma walk_list_in : forall f l it, In it (walk_list f l) ->
+  exists k v items p, In (k, v) l /\ f v = WList items /\ In (p, snd it) items.
+Proof.
+  induction l as [|[k v] l IH]; intros it H; simpl in H; [contradiction|].
+  destruct (f v) as [items|] eqn:E; [|contradiction].
+  apply in_app_or in H as [H|H].
+  - apply in_map_iff in H as ([p lf] & <- & Hin). exists k, v, items, p. simpl. split; [now left|]. auto.
+  - destruct (IH it H) as (k' & v' & items' & p' & I1 & I2 & I3). exists k', v', items', p'. split; [now right|]. auto.
+Qed.
+
+Lemma walk_models_reach : forall st n o l it, walk_val st n SModelRec (VRef o) = WList l -> In it l ->
+  exists c, snd it = LObj c /\ Reach st o c.
+Proof.
+  intros st n. induction n as [|n IH]; intros o l it W Hin; simpl in W.
+  - destruct (memb o (inflight st)); [discriminate|]. injection W as <-. contradiction.
+  - destruct (memb o (inflight st)); [discriminate|].
+    destruct (get st o) as [ob|] eqn:G; [|injection W as <-; contradiction].
+    assert (Hs : sel_obj SModelRec (okind ob) = false) by (destruct (okind ob); reflexivity).
+    rewrite Hs in W. injection W as <-. apply in_app_or in Hin as [Hin|Hin].
+    + destruct (sel_also SModelRec (okind ob)); [|contradiction]. destruct Hin as [<-|[]].
+      exists o. split; auto. apply Reach_refl.
+    + destruct (walk_list_in _ _ _ Hin) as (k & v & items & p & I1 & I2 & I3).
+      destruct v as [pp|cc|c].
+      * destruct n; simpl in I2; injection I2 as <-; contradiction.
+      * destruct n; simpl in I2; injection I2 as <-; contradiction.
+      * destruct (IH c items (p, snd it) I2 I3) as (c' & E & R). exists c'. split; auto.
+        now apply (Reach_step st o ob k c).
 Qed.
 
 Local Opaque walk_val.
@@ -184,24 +214,69 @@ Proof.
   rewrite E, IH; auto. intros kv Hin. apply Hl. now right.
 Qed.
 
+Lemma agree_trans_reach : forall st st' o c, agree st st' o -> Reach st o c -> agree st st' c.
+Proof.
+  intros st st' o c A R t Rt. apply A. clear A. induction R as [o|o ob k c0 c G I R IH]; auto.
+  apply (Reach_step st o ob k c0); auto.
+Qed.
+
+Lemma has_obj_local : forall st st' o, agree st st' o -> has_obj st' o = has_obj st o.
+Proof.
+  intros st st' o A. unfold has_obj. destruct (get st o) as [ob|] eqn:G.
+  - destruct (agree_get _ _ _ _ A G) as (ob' & G' & _). now rewrite G'.
+  - now rewrite (agree_none _ _ _ A G).
+Qed.
+
+Section Local.
+  Variables st st' : state.
+  Hypothesis Hi : inflight st' = inflight st.
+
+  Lemma p_pit_local : forall o s, agree st st' o -> p_pit st' o s = p_pit st o s.
+  Proof. intros o s A. unfold p_pit, walk_top. now rewrite (has_obj_local st st' o A), (walk_val_local st st' Hi). Qed.
+  Lemma p_attr_local : forall o s, agree st st' o -> p_attr st' o s = p_attr st o s.
+  Proof. intros o s A. unfold p_attr. now rewrite (has_obj_local st st' o A), p_pit_local. Qed.
+  Lemma p_unique_local : forall o, agree st st' o -> p_unique st' o = p_unique st o.
+  Proof. intros o A. unfold p_unique. now rewrite (has_obj_local st st' o A), p_attr_local. Qed.
+  Lemma p_count_local : forall o, agree st st' o -> p_count st' o = p_count st o.
+  Proof. intros o A. unfold p_count. now rewrite p_unique_local. Qed.
+
+  Lemma kind_of_local : forall c, agree st st' c -> kind_of st' c = kind_of st c.
+  Proof.
+    intros c A. unfold kind_of, view. destruct (get st c) as [cb|] eqn:G.
+    - destruct (agree_get _ _ _ _ A G) as (cb' & G' & K & At). now rewrite G', K, At.
+    - now rewrite (agree_none _ _ _ A G).
+  Qed.
+
+  Lemma p_mtt_local : forall o c z, agree st st' o -> p_mtt st' o c z = p_mtt st o c z.
+  Proof.
+    intros o c z A. unfold p_mtt. rewrite (has_obj_local st st' o A), p_attr_local by auto.
+    destruct (has_obj st o) eqn:Ho; auto.
+    destruct (p_attr st o SModelRec) as [[l|]|e] eqn:Pa; auto. simpl.
+    rewrite (mapR_ext (mtt_item st' c z) (mtt_item st c z)); auto.
+    intros it Hin.
+    assert (R : exists c0, snd it = LObj c0 /\ Reach st o c0).
+    { unfold p_attr in Pa. rewrite Ho in Pa. unfold p_pit in Pa. rewrite Ho in Pa. simpl in Pa.
+      unfold walk_top in Pa. destruct (walk_val st FUEL SModelRec (VRef o)) as [l0|] eqn:W; simpl in Pa; [|discriminate].
+      injection Pa as <-. apply in_map_iff in Hin as (it0 & <- & Hin0). simpl.
+      apply (walk_models_reach st FUEL o l0 it0 W Hin0). }
+    destruct R as (c0 & E & R). unfold mtt_item, item_oid. rewrite E.
+    pose proof (agree_trans_reach st st' o c0 A R) as Ac.
+    now rewrite kind_of_local, p_count_local.
+  Qed.
+End Local.
+
 Lemma pure_key_local : forall st st' o k, inflight st' = inflight st -> agree st st' o ->
   pure_key st' o k = pure_key st o k.
 Proof.
   intros st st' o k Hi A.
-  assert (Hh : has_obj st' o = has_obj st o).
-  { unfold has_obj. destruct (get st o) as [ob|] eqn:G.
-    - destruct (agree_get _ _ _ _ A G) as (ob' & G' & _). now rewrite G'.
-    - now rewrite (agree_none _ _ _ A G). }
-  assert (Hp : forall s, p_pit st' o s = p_pit st o s).
-  { intros s. unfold p_pit, walk_top. now rewrite Hh, (walk_val_local st st' Hi). }
-  assert (Ha : forall s, p_attr st' o s = p_attr st o s) by (intros; unfold p_attr; now rewrite Hh, Hp).
-  assert (Hu : p_unique st' o = p_unique st o) by (unfold p_unique; now rewrite Hh, Ha).
-  destruct k; simpl; auto.
-  - unfold p_ordered. now rewrite Hh, Hu.
+  destruct k; cbn [pure_key];
+    [now apply p_pit_local|now apply p_attr_local|now apply p_unique_local| | |now apply p_mtt_local|].
+  - unfold p_ordered. now rewrite (has_obj_local st st' o A), (p_unique_local st st' Hi).
   - unfold p_direct. destruct (get st o) as [ob|] eqn:G.
     + destruct (agree_get _ _ _ _ A G) as (ob' & G' & _ & At). rewrite G', At.
       now rewrite (direct_items_local st st' d o ob A G).
     + now rewrite (agree_none _ _ _ A G).
+  - unfold p_mwt. now rewrite (has_obj_local st st' o A), (p_mtt_local st st' Hi).
 Qed.
 
 (* ------------------------------------------------------------------ modifications *)
